@@ -148,7 +148,6 @@ impl Decimal256 {
 //%fn packages/bignumber/src/math.rs | impl fmt::Display for Decimal256 | fmt
 //%%rewrite #1 /write!\(f, "\{\}", whole\)/ => f.write_str(&whole.to_string()) ## write!(f, "{}", x) with x: U256 = the Display text of x written to f
 //%%rewrite #1 /"0"\.repeat\(18 - (\w+)\.len\(\)\) \+ &(\w+)/ => vconcat("0".repeat(18 - vlen_str(&\1)), &\2) ## String + &str and str::len -> assumed helpers (std)
-//%%rewrite #? /(\w+)\.trim_end_matches\('0'\)/ => vtrim_end_matches(&\1, '0') ## str::trim_end_matches(char) -> assumed helper (std)
 //%%sig
     ensures
 //%if A
@@ -156,7 +155,7 @@ impl Decimal256 {
 //%endif
         /*[C18 dec.render.canonical]*/ r is Ok ==> final(f).out@ == old(f).out@ + render_dec(self.0.v()),
 //%%head
-        broadcast use {mlem::lemma_decimal_fractional, axiom_utf8_len_ascii};
+        broadcast use {mlem::lemma_decimal_fractional, axiom_utf8_len_ascii, axiom_pat_char};
         proof { lemma_digits_ascii_all(); reveal_strlit("0"); }
 //%%insert before #1 /^            Ok\(\(\)\)$/
             proof {
